@@ -51,13 +51,13 @@ T = {
  "C14": ("twin-history monitor: history with invalid calls vs the same history without them on the same back end; guard buffers, crash containment; failed-init objects produced by allocation-fault injection",
          "Exploration over histories x invalid-argument classes x object states for CTR, parallel-ECB and key-schedule functions.",
          "'Unchanged' is the property's own definition: identical later results.", "3/C14"),
- "C15": ("allocator event-log monitor (link-time --wrap) with conservation/exactly-once checker, PROT_NONE quarantine of freed blocks, weakly aligned (8-byte) allocator mode with slack fill-pattern check, inert-handle cleanup on a PROT_READ copy, ASan",
+ "C15": ("allocator event-log monitor (link-time --wrap of the malloc family and of mmap/munmap) with conservation/exactly-once checker, PROT_NONE quarantine of freed blocks, weakly aligned (8-byte) allocator mode with slack fill-pattern check, inert-handle cleanup on a PROT_READ copy, ASan",
          "Exploration over life-cycle histories on several objects of each kind and back end.",
          "Allocator wrapped at link time; only calls made while a library call is in progress are attributed.", "3/C15"),
- "C16": ("fault injection: N-th allocation request failed through the allocator monitor, enumerated over init functions x back ends x prior handle contents, then a battery of later calls",
+ "C16": ("fault injection: N-th allocation request failed through the allocator monitor, enumerated over init functions x back ends x prior handle contents (also in cold, freshly forked processes and on alternative compile-time paths), then a battery of later calls",
          "Fault enumeration: every allocation point of every init function on every back end with six prior-content classes of the caller's handle.",
          "Allocation points discovered by a dry run of the monitor.", "3/C16"),
- "C17": ("monitor at free(): every block the library releases is scanned for non-zero bytes before release, on -O3 gcc and clang builds, also in a process where mlock fails (seccomp) and with 220 objects alive",
+ "C17": ("monitor at free() and munmap(): every block the library releases is scanned for non-zero bytes before release, on -O3 gcc and clang builds, also in a process where mlock fails (seccomp) and with 220 objects alive",
          "Exploration over histories ending in cleanup for every object kind and back end with all fields non-zero beforehand (non-vacuity measured).",
          "Block sizes known from the matching allocation event.", "3/C17"),
  "C18": ("ThreadSanitizer (gcc and clang) and helgrind over 16-thread workloads (incl. first-ever calls made concurrently, key-setup storms, persistent workers across re-keying phases, 64 KiB+ requests; a -fno-builtin TSan build) + process-state snapshots (signal dispositions, mask, FP control) + sequential-equivalence oracle + mprotect(PROT_READ) of shared parallel-ECB state during read-only calls, positive control race",
